@@ -243,12 +243,20 @@ CLAIMED = {
              "merge_text_nodes, clone) is modelled in Lean (Model/Edit.lean) next to a plain ordered tree with node identities; "
              "proved: every mechanism step refines the list splice on the abstracted tree (c01_step), lifted to all histories "
              "(c01_history), errors agree, merge/clone refine their specifications, and moving nodes permutes the text nodes "
-             "without loss (c01_no_text_lost). Tie to code: random histories of public API calls on real documents; after every "
+             "without loss (c01_no_text_lost). The public API calls themselves - add_following_siblings, "
+             "add_preceding_siblings, append_children, prepend_children, insert_children, detach(retain_child_nodes=True), "
+             "replace_with, del node[i], each with any number of offered nodes - are total definitions over the primitive "
+             "steps (Model/EditApi.lean, the code the compiled driver runs), proved to refine from the mechanism to the plain "
+             "tree (c01_api_refines, c01_api_history) and to equal the documented list splice for every number of items and "
+             "every tree (c01_api_append, _insert, _add_following, _add_preceding [offered nodes land in reverse order], "
+             "_detach_retain, _replace, _delitem; index errors exactly when out of range). Tie to code: random histories of public API calls on real documents; after every "
              "call the real forest with object identities as handles == compiled mechanism model == Lean spec == independent "
              "Python plain-tree mirror.",
         note=TB + "Legal edits only (non-empty text payloads, no cycles, offered nodes detached; rejections are C09); no ambient "
-             "filters; all nodes referenced and the cyclic collector off during a history (C04 covers collection). Composite API "
-             "calls are expanded in the driver into single-node steps as the Python methods compose them. Recorded findings "
+             "filters; all nodes referenced and the cyclic collector off during a history (C04 covers collection). Materialisation "
+             "of clones and tag() definitions offered to a call stays in the driver (the API theorems take offered nodes as "
+             "parentless groups or fresh text); detach(retain_child_nodes=True) detaches the children before the node in the "
+             "model, the code the node first (same resulting forest). Recorded findings "
              "outside this guard: empty text payloads, attributes of nodes moved across default-namespace scopes.",
         technique="Lean 4 refinement theorem (mechanism model -> plain tree spec, induction over paths and histories) + differential correspondence on edit histories",
         design="3/C01",
